@@ -136,12 +136,17 @@ pub struct ExecLike {
 /// not observable, so it counts as happened if the response reports it, and otherwise must lie
 /// inside a region nulled by a failure that did happen (the library legitimately stopped early).
 pub fn expected(base: &ExecLike, faulted_log: &[super::world::REvent], root_types: &BTreeMap<String, Ty>, got_errs: &[(String, String)]) -> Result<(J, Vec<(String, String)>), String> {
-    expected_ext(base, faulted_log, root_types, got_errs, false)
+    // Always with the "in transit" rule: with more than 30 sibling futures futures-util's join polls
+    // through a FuturesOrdered, so a second non-null sibling can have returned its error before the
+    // join delivers the first one; which of two failures inside one non-null region is reported is a
+    // race the property does not (and cannot) fix.
+    expected_ext(base, faulted_log, root_types, got_errs, true)
 }
 
-/// `in_transit`: suspending extension hooks wrap the resolvers, so an error a resolver has returned
-/// may still be travelling through a suspended hook when a sibling's error cancels the region; such
-/// a failure is treated like an unevaluated list item (optional if pre-empted).
+/// `in_transit`: an error a resolver has returned may still be travelling (through a suspended
+/// extension hook, or queued inside a large join) when a sibling's error cancels the region; such a
+/// failure is treated like an unevaluated list item: optional if its effect lies inside a region
+/// nulled by a failure that was reported.
 pub fn expected_ext(base: &ExecLike, faulted_log: &[super::world::REvent], root_types: &BTreeMap<String, Ty>, got_errs: &[(String, String)], in_transit: bool) -> Result<(J, Vec<(String, String)>), String> {
     let fmap = field_map(&[&base.log, faulted_log]);
     let mut data = base.data.clone();
